@@ -247,7 +247,24 @@ func c05Check(e *core.Env, r *core.Rand, idx int64, file, text string, exists bo
 	w := map[string]any{"file_before": text, "file_existed": exists, "command": cmd.String(), "clock": env.Clock().Format("2006-01-02T15:04:05"), "config": env.ConfigFile(), "cell": cell}
 	before := statID(file)
 	viaCLI := idx%3 == 0 || cmd.ShouldText != "" || cmd.Kind == "bookmarks"
+	var lockHolder *os.File
+	if idx%7 == 3 && exists {
+		// somebody else (a backup tool, an editor, a second klog) holds an advisory lock on the target while the command runs
+		if lf, lerr := os.Open(file); lerr == nil {
+			if syscall.Flock(int(lf.Fd()), syscall.LOCK_EX) == nil {
+				lockHolder = lf
+				w["target_flocked_by_another_descriptor"] = true
+				e.Count("cases_with_target_locked_by_another_party", 1)
+			} else {
+				lf.Close()
+			}
+		}
+	}
 	res := runMutating(e, cmd, env, file, viaCLI)
+	if lockHolder != nil {
+		_ = syscall.Flock(int(lockHolder.Fd()), syscall.LOCK_UN)
+		lockHolder.Close()
+	}
 	after := statID(file)
 	afterText := ""
 	if after.exists {
@@ -291,6 +308,11 @@ func c05Check(e *core.Env, r *core.Rand, idx int64, file, text string, exists bo
 		}
 		e.Count("failures", 1)
 	}
+	if idx%40 == 9 && e.KlogBin != "" && exists && cmd.Kind != "bookmarks" && !(cmd.Kind == "pause" && len(cmd.Ticks) > 1) {
+		if !c05DevFull(e, file, text, cmd, env, w) {
+			return
+		}
+	}
 	if cell != "" {
 		e.Count("cell_"+cell, 1)
 		e.Nontrivial(core.Hash64("c05", cell, text, cmd.String()))
@@ -301,6 +323,41 @@ func c05Check(e *core.Env, r *core.Rand, idx int64, file, text string, exists bo
 	if (withStrace || (res.OK && idx%6 == 1)) && e.KlogBin != "" && !(cmd.Kind == "pause" && len(cmd.Ticks) > 1) && cmd.Kind != "bookmarks" {
 		c05Strace(e, file, text, exists, cmd, env, res.OK, w)
 	}
+}
+
+// c05DevFull runs the real binary with a standard output on which every write fails (/dev/full): whatever the command
+// then reports, a non-zero status must go with an untouched file and status 0 with a valid one.
+func c05DevFull(e *core.Env, file, text string, cmd MCmd, env MEnv, w map[string]any) bool {
+	if _, err := os.Stat("/dev/full"); err != nil {
+		return true
+	}
+	_ = os.WriteFile(file, []byte(text), 0644)
+	cfg := e.Dir + "/stracecfg"
+	_ = os.MkdirAll(cfg, 0755)
+	_ = os.WriteFile(cfg+"/config.ini", []byte(env.ConfigFile()), 0644)
+	clock := env.Clock()
+	args := append(cmd.Args(), "--no-warn", file)
+	b := obs.RunBin(obs.BinEnv{Bin: e.KlogBin, ConfigDir: cfg, Clock: &clock, NoColor: true, StdoutPath: "/dev/full", ExtraEnv: []string{"KLOG_VERIF_MAXITER=2"}}, args...)
+	if b.Err != nil {
+		return true
+	}
+	after := readFile(file)
+	w["stdout"] = "/dev/full"
+	w["devfull_exit"] = b.Code
+	w["devfull_file_after"] = after
+	if b.Code != 0 && after != text {
+		e.Violation("failed-command-changes-file", fmt.Sprintf("real binary with an unwritable standard output: `klog %s` exited with %d but the file's bytes changed\n%s", cmd.String(), b.Code, trunc(b.Stderr, 300)), w)
+		return false
+	}
+	if b.Code == 0 {
+		if _, perr := readBack(after); perr != "" {
+			e.Violation("success-leaves-invalid-file", "real binary with an unwritable standard output: file does not parse after a successful command: "+perr, w)
+			return false
+		}
+	}
+	delete(w, "stdout")
+	e.Count("runs_with_unwritable_stdout", 1)
+	return true
 }
 
 func c05Strace(e *core.Env, file, text string, exists bool, cmd MCmd, env MEnv, expectOK bool, w map[string]any) {
